@@ -1,5 +1,5 @@
 From Coq Require Import ZArith List Bool.
-From RV Require Import Base.Wire Host.LCDAnim Device.DLCDAnim.
+From RV Require Import Base.Wire Host.LCDAnim Device.DLCDAnim Device.DLCDInject.
 Import ListNotations.
 Open Scope Z_scope.
 
@@ -7,6 +7,9 @@ Open Scope Z_scope.
    case 1 (device): (1 cols rows (anim...) (now...))
    case 2 (emit)  : (2 (site...) (site...))            site = (name style)     setup sites, loop sites
    case 3 (sched) : (3 speed endless budget (now...))  the specification schedule [due_flags] from last = 0
+   case 4 (tree)  : (4 (stmt...) (stmt...))            setup block, main-loop block;
+                    stmt = (0 name style) lcd.animate | (1) other | (2 kind (body...))  body = (stmt...)
+                    kind: 0 if (branches then else), 1 while, 2 for, 3 try (try body then handlers)
    style: 0 scroll, 1 blink, 2 typewriter, 3 bounce *)
 
 Definition un_style (z : Z) : option style :=
@@ -108,6 +111,35 @@ Fixpoint un_sites (l : list wv) : option (list site) :=
 Definition w_var (t : Z * Z * style) : wv :=
   let '(n, k, sty) := t in WL [WI n; WI k; WI (style_code sty)].
 
+Definition un_kind (z : Z) : option bkind :=
+  match z with 0 => Some KIf | 1 => Some KWhile | 2 => Some KFor | 3 => Some KTry | _ => None end.
+
+Fixpoint dec_stmt (v : wv) : option stmt :=
+  let fix decs (l : list wv) : option (list stmt) :=
+    match l with
+    | [] => Some []
+    | x :: r => match dec_stmt x, decs r with Some s, Some ss => Some (s :: ss) | _, _ => None end
+    end in
+  let fix decb (l : list wv) : option (list (list stmt)) :=
+    match l with
+    | [] => Some []
+    | WL b :: r => match decs b, decb r with Some bs, Some rest => Some (bs :: rest) | _, _ => None end
+    | _ => None
+    end in
+  match v with
+  | WL [WI 0; WI n; WI s] => match un_style s with Some sty => Some (SAnim n sty) | None => None end
+  | WL [WI 1] => Some SOther
+  | WL [WI 2; WI k; WL bodies] =>
+      match un_kind k, decb bodies with Some kd, Some bs => Some (SBlock kd bs) | _, _ => None end
+  | _ => None
+  end.
+
+Fixpoint dec_stmts (l : list wv) : option (list stmt) :=
+  match l with
+  | [] => Some []
+  | x :: r => match dec_stmt x, dec_stmts r with Some s, Some ss => Some (s :: ss) | _, _ => None end
+  end.
+
 Definition run (v : wv) : wv :=
   match v with
   | WL [WI 0; WI cols; WI rows; WL as_; nows] =>
@@ -135,6 +167,12 @@ Definition run (v : wv) : wv :=
   | WL [WI 3; WI speed; lp; WI budget; nows] =>
       match un_bool lp, un_text nows with
       | Some endless, Some ts => wok [WL (map wbool (due_flags speed endless 0 budget ts))]
+      | _, _ => wbad
+      end
+  | WL [WI 4; WL s1; WL s2] =>
+      match dec_stmts s1, dec_stmts s2 with
+      | Some a, Some b => wok [WL (map w_var (tree_loop_ticks a b)); WL (map w_var (tree_all_vars a b));
+                               WL (map WI (parser_ticks a b))]
       | _, _ => wbad
       end
   | WL [WI 2; WL s1; WL s2] =>
